@@ -202,7 +202,7 @@ func TestVerif_C02_Injection(t *testing.T) {
 			eps = append(eps, soloEpSpec{V6: true, Typ: CandidateTypeHost})
 		}
 		// optionally a passive TCP host candidate, with endpoint 0 reachable over TCP at the same ip:port
-		withTCP := rapid.IntRange(0, 2).Draw(rt, "withTCP") == 0
+		withTCP := rapid.IntRange(0, 1).Draw(rt, "withTCP") == 0
 		if withTCP {
 			locals = append(locals, duoSockSpec{Kind: simKindTCPHost})
 		}
@@ -394,12 +394,16 @@ func TestVerif_C02_Injection(t *testing.T) {
 			fingerprint := rapid.SampledFrom([]string{"good", "bad", "absent"}).Draw(rt, "fingerprint")
 			extra := rapid.SampledFrom([]string{"", "", "use", "nomination", "unknown", "xor"}).Draw(rt, "extraAttr")
 			for k := 0; k < nMut; k++ {
-				mu := rapid.SampledFrom([]string{
+				muPool := []string{"to-other-transport"}
+				if !withTCP {
+					muPool = nil
+				}
+				mu := rapid.SampledFrom(append(muPool, []string{
 					"user-swapped", "user-wrong-local", "user-wrong-remote", "user-prev-gen", "user-absent", "user-empty", "user-prefix",
 					"key-other-side", "key-prev-gen", "key-random", "key-absent", "corrupt-byte", "truncate",
 					"class-indication", "class-error", "class-flip", "method", "txid-random", "txid-answered",
 					"src-other-known", "src-unknown", "src-other-family", "src-port", "to-other-transport", "replay-authenticated-request-unsigned",
-				}).Draw(rt, "mutation")
+				}...)).Draw(rt, "mutation")
 				muts = append(muts, mu)
 				switch mu {
 				case "user-swapped":
